@@ -130,5 +130,116 @@ def c20_hook(state):
     return hook
 
 
-HOOKS = {"c20": c20_hook}
+def c04_hook(state):
+    """Independent reading of the flags: terminated iff all operations done and every job in an output buffer;
+    never both flags; makespan = clock = latest completion; stepping a finished episode raises EnvDone."""
+    out = {"violations": [], "counts": {"steps": 0, "terminal": 0, "envdone_probes": 0}}
+    state["out"] = out
+
+    def hook(env, stepinfo):
+        if stepinfo is None:
+            return
+        from jobshoplab.types.instance_config_types import BufferRoleConfig
+        from jobshoplab.types.state_types import OperationStateState as OS
+        from jobshoplab.utils.exceptions import EnvDone
+        a, obs, rew, term, trunc, info = stepinfo
+        out["counts"]["steps"] += 1
+        s = env.state.state
+        outs = {b.id for b in env.instance.buffers if b.role == BufferRoleConfig.OUTPUT}
+        all_done = all(o.operation_state_state == OS.DONE for j in s.jobs for o in j.operations)
+        all_out = all(j.location in outs for j in s.jobs)
+        rp = {"terminated": term, "truncated": trunc, "all_done": all_done, "all_in_output": all_out, "info": str(info)}
+        if bool(term) != (all_done and all_out):
+            out["violations"].append({"kind": "flags:terminated_iff", "detail": "terminated=%s but all_done=%s all_in_output=%s"
+                                      % (term, all_done, all_out), "replay": rp})
+        if term and trunc:
+            out["violations"].append({"kind": "flags:both", "detail": "terminated and truncated together", "replay": rp})
+        if term:
+            out["counts"]["terminal"] += 1
+            ends = [o.end_time.time for j in s.jobs for o in j.operations]
+            mk = max(ends) if ends else None
+            if info.get("makespan") != s.time.time or (mk is not None and info.get("makespan") != mk):
+                out["violations"].append({"kind": "flags:makespan", "detail": "makespan %s, clock %s, latest completion %s"
+                                          % (info.get("makespan"), s.time.time, mk), "replay": rp})
+        elif info.get("makespan") is not None:
+            out["violations"].append({"kind": "flags:makespan", "detail": "makespan reported before termination", "replay": rp})
+        if term or trunc:
+            out["counts"]["envdone_probes"] += 1
+            before = (env.state, len(env.history), env.terminated, env.truncated)
+            try:
+                env.step(1)
+                out["violations"].append({"kind": "flags:step_after_done", "detail": "step on a finished episode did not raise",
+                                          "replay": rp})
+            except EnvDone:
+                if (env.state, len(env.history), env.terminated, env.truncated) != before:
+                    out["violations"].append({"kind": "flags:step_after_done", "detail": "EnvDone but episode changed",
+                                              "replay": rp})
+            except Exception as e:  # noqa
+                out["violations"].append({"kind": "flags:step_after_done", "detail": "raised %s instead of EnvDone"
+                                          % type(e).__name__, "replay": rp})
+
+    return hook
+
+
+def c18_hook(state):
+    """Declining: several offers -> same shop, offers[1:]; last offer -> no agent transition, strictly later clock,
+    fresh complete offer list; truncation exactly when fully-declined rounds exceed the allowance."""
+    out = {"violations": [], "counts": {"decline_many": 0, "decline_last": 0, "accepts": 0, "truncations": 0}}
+    state["out"] = out
+    st = {}
+
+    def hook(env, stepinfo):
+        from jobshoplab.state_machine.core.state_machine import state as smod
+        mwcfg = env.config.middleware.event_based_binary_action_middleware
+        if stepinfo is None:
+            st.clear()
+            st.update(prev=env.state, declined_rounds=0, accepted=False, joker0=mwcfg.truncation_joker,
+                      active=mwcfg.truncation_active)
+            return
+        a, obs, rew, term, trunc, info = stepinfo
+        prev = st["prev"]
+        cur = env.state
+        n = len(prev.possible_transitions)
+        rp = {"action": a, "offers_before": len(prev.possible_transitions), "offers_after": len(cur.possible_transitions)}
+        if a == 0 and n > 1:
+            out["counts"]["decline_many"] += 1
+            if cur.state is not prev.state and cur.state != prev.state:
+                out["violations"].append({"kind": "decline:many_changed_state", "detail": "declining one of several offers "
+                                          "changed the shop", "replay": rp})
+            if tuple(cur.possible_transitions) != tuple(prev.possible_transitions[1:]):
+                out["violations"].append({"kind": "decline:many_offers", "detail": "offer list is not the previous list "
+                                          "minus the declined offer", "replay": rp})
+        elif a == 0 and n == 1:
+            out["counts"]["decline_last"] += 1
+            if len(cur.action.transitions) != 0:
+                out["violations"].append({"kind": "decline:last_agent_transition", "detail": "a transition of the agent's "
+                                          "choosing was applied", "replay": rp})
+            if not term and not (cur.state.time.time > prev.state.time.time):
+                out["violations"].append({"kind": "decline:last_clock", "detail": "clock %s -> %s not strictly later"
+                                          % (prev.state.time.time, cur.state.time.time), "replay": rp})
+            if not term:
+                fresh = smod.get_possible_transitions(cur.state, env.instance, env.config)
+                if tuple(fresh) != tuple(cur.possible_transitions):
+                    out["violations"].append({"kind": "decline:last_offers", "detail": "offer list after declining the last "
+                                              "offer is not the complete list of the new state", "replay": rp})
+            if not term:
+                if st["active"] and not st["accepted"]:
+                    st["declined_rounds"] += 1
+                st["accepted"] = False
+        elif a == 1:
+            out["counts"]["accepts"] += 1
+            st["accepted"] = True
+        expect = st["active"] and st["declined_rounds"] > st["joker0"]
+        if bool(trunc) != bool(expect):
+            out["violations"].append({"kind": "truncation:count", "detail": "truncated=%s but %d fully declined round(s), "
+                                      "allowance %d, active=%s" % (trunc, st["declined_rounds"], st["joker0"], st["active"]),
+                                      "replay": rp})
+        if trunc:
+            out["counts"]["truncations"] += 1
+        st["prev"] = cur
+
+    return hook
+
+
+HOOKS = {"c20": c20_hook, "c04": c04_hook, "c18": c18_hook}
 POST = {}
